@@ -59,7 +59,11 @@ pub fn oracle(c: &MutCase, obs: &mut Obs) -> Vec<Violation> {
     if m.body.errs_all != m.body.errs_all_again {
         out.push(viol(
             format!("C13|MT{mt}|unstable"),
-            "validating twice gives different lists".to_string(),
+            format!(
+                "validating again gives a different list (compared with every payload of each error):\n{:?}\nvs\n{:?}",
+                m.body.errs_all.iter().map(|e| &e.debug).collect::<Vec<_>>(),
+                m.body.errs_all_again.iter().map(|e| &e.debug).collect::<Vec<_>>()
+            ),
         ));
     }
     if m.body.json_after_validate != m.body.json
@@ -161,7 +165,7 @@ pub fn oracle(c: &MutCase, obs: &mut Obs) -> Vec<Violation> {
 }
 
 pub fn run(ctx: &Ctx) {
-    ctx.add_rule("per message type: messages from the layout generator with rule-relevant contents (codes, currencies, amounts drawn from small pools so that rule antecedents fire, see C04) and their structural mutations; accepted => rules(true) is a prefix of rules(false) with equal emptiness, SwiftMessage::validate / ParsedSwiftMessage::validate / validate_mt agree in verdict, count and order, a second call is identical and the message is unchanged; non-trivial = at least one rule violated; distinct by text");
+    ctx.add_rule("per message type: messages from the layout generator with rule-relevant contents (codes, currencies, amounts drawn from small pools so that rule antecedents fire, see C04) and their structural mutations; accepted => validating seven times in a row gives the same list every time (each error compared with all of its payloads, related fields included), rules(true) is a prefix of rules(false) with equal emptiness, SwiftMessage::validate / ParsedSwiftMessage::validate / validate_mt agree in verdict, count and order, a second call is identical and the message is unchanged; non-trivial = at least one rule violated; distinct by text");
     let to_json = |c: &MutCase| serde_json::to_value(c).unwrap();
     ctx.run_generated(
         "coherence",
